@@ -53,6 +53,11 @@ Theorem C03_close_accepted : forall (K : Fld) (close_tag cid : K) (pk : pkey K) 
   end.
 Proof. exact close_accepted. Qed.
 
+Theorem C03_refused_replies_do_not_matter : forall (K : Fld) (close_tag : K) (pk : pkey K) evs (st : stage K),
+  Forall (fun ev => snd (step close_tag pk st ev) = ORefused) evs ->
+  fold_left (fun s ev => fst (step close_tag pk s ev)) evs st = st.
+Proof. exact refused_replies_do_not_matter. Qed.
+
 (** revocation bookkeeping: along any history the state a close would use is either still the same one or its lock has been
     disclosed to the merchant (and stays so): a closing message for a superseded state is refutable, the current one is not *)
 Theorem C03_superseded_state_is_revoked : forall (K : Fld) (close_tag : K) (pk : pkey K) evs (y : sys K),
@@ -75,3 +80,4 @@ Print Assumptions C03_inv_reachable.
 Print Assumptions C03_close_accepted.
 Print Assumptions C03_close_with_zero_randomiser_rejected.
 Print Assumptions C03_superseded_state_is_revoked.
+Print Assumptions C03_refused_replies_do_not_matter.
